@@ -56,11 +56,11 @@ def search(seed):
     want = STRATA[seed % len(STRATA)]
     if want == "min-card-set-after-larger":
         from .. import search as S
-        return S.worldset_search(seed, want, max_candidates=12000, need_lex_tie=True)
+        return S.worldset_search(seed, want, max_candidates=20000, need_lex_tie=True)
     rnd = gen.rng(seed)
     tried = 0
     best = None
-    for _ in range(4000):
+    for _ in range(8000):
         n = rnd.randint(3, 5)
         m = rnd.randint(4, 8)
         atoms, conds = gen.r_literal_base(rnd, n, m, max_ant=2)
@@ -80,6 +80,8 @@ def search(seed):
                 return gen.mk_case(atoms, conds, [(B, A)] + others, searched=want, tried=tried)
         if best is None:
             best = gen.mk_case(atoms, conds, qs[:3], searched="none", tried=tried)
+    if best is None:   # practically unreachable: no multi-layer base among thousands of candidates
+        best = gen.mk_case(["a", "b"], [(fm.V("b"), fm.V("a"))], [(fm.V("b"), fm.V("a"))], searched="none")
     best["tried"] = tried
     return best
 
